@@ -16,6 +16,8 @@ import (
 	"strings"
 	"sync"
 	"time"
+
+	"verif/harness/sim"
 )
 
 // Violation is one oracle failure.
@@ -55,6 +57,7 @@ type UnitReport struct {
 	Exhaustive bool           `json:"exhaustive,omitempty"`
 	Inconcl    int            `json:"inconclusive,omitempty"`
 	Hashes     []string       `json:"hashes,omitempty"`
+	Hang       bool           `json:"hang,omitempty"` // the worker process had to end: a task hung inside sop
 }
 
 // CheckDef defines one property check.
@@ -193,6 +196,8 @@ func Main(args []string) int {
 		return replayMain(args[1])
 	case "selftest":
 		return selftestMain(args[1:])
+	case "minimise":
+		return minimiseMain(args[1:])
 	}
 	fmt.Fprintln(os.Stderr, "unknown command", args[0])
 	return 2
@@ -230,7 +235,12 @@ func workerMain(args []string) int {
 	out := bufio.NewWriter(os.Stdout)
 	defer out.Flush()
 	enc := json.NewEncoder(out)
-	for i := k; i < total; i += n {
+	start := k
+	if len(args) > 6 {
+		start, _ = strconv.Atoi(args[6])
+	}
+	installStuckHandler(enc, out)
+	for i := start; i < total; i += n {
 		if dl > 0 && time.Now().Unix() > dl {
 			break
 		}
@@ -242,10 +252,90 @@ func workerMain(args []string) int {
 	return 0
 }
 
+// current unit / case of this worker (for hang reports)
+var curUnit *Unit
+var curCase any
+var curCheck string
+
+// installStuckHandler: a task that hangs inside sop (pure CPU loop, no yield) cannot be
+// interrupted in-process. The worker reports the case it was executing as a violation
+// candidate of class hang/<first sop frame of the hung goroutine> and exits with status 4;
+// the driver then continues the remaining units in a fresh worker.
+func installStuckHandler(enc *json.Encoder, out *bufio.Writer) {
+	sim.StuckHandler = func(s *sim.Sim, t *sim.Task, stacks string) {
+		rep := &UnitReport{Hang: true}
+		if curUnit != nil {
+			rep = curUnit.Rep
+			rep.Hang = true
+		}
+		cls := "hang/" + strings.TrimPrefix(hangFrame(stacks), "panic/")
+		v := Violation{Property: curCheck, Class: cls,
+			Msg: fmt.Sprintf("task %s did not yield or finish within %v of real time at its intercepted call #%d: it spins inside sop (goroutine stack: %s)", t.Name, sim.StuckLimit, t.OpCount, hangFrames(stacks, 6))}
+		if curCase != nil {
+			v.Payload = mustJSON(curCase)
+		}
+		rep.Violations = append(rep.Violations, v)
+		rep.Evals++
+		enc.Encode(rep)
+		out.Flush()
+		os.RemoveAll(RunDirBase)
+		os.Exit(4)
+	}
+}
+
+// hangFrame finds, in a full goroutine dump, the goroutine that is running sop code and
+// returns its innermost sop frame as a class name.
+func hangFrame(stacks string) string {
+	for _, g := range strings.Split(stacks, "\n\n") {
+		if !strings.Contains(g, "[runnable]") && !strings.Contains(g, "[running]") {
+			continue
+		}
+		if !strings.Contains(g, "github.com/sharedcode/sop/") || strings.Contains(g, "sim.(*Sim).Run(") {
+			continue
+		}
+		// prefer the public B-tree method the caller was in
+		for _, line := range strings.Split(g, "\n") {
+			if strings.HasPrefix(line, "github.com/sharedcode/sop/btree.(*Btree") {
+				f := strings.TrimPrefix(line, "github.com/sharedcode/sop/")
+				if j := strings.LastIndex(f, "("); j > 0 {
+					f = f[:j]
+				}
+				return "panic/" + strings.ReplaceAll(f, "[...]", "")
+			}
+		}
+		return panicClass(g)
+	}
+	return "panic/unknown"
+}
+
+func hangFrames(stacks string, n int) string {
+	for _, g := range strings.Split(stacks, "\n\n") {
+		if (strings.Contains(g, "[runnable]") || strings.Contains(g, "[running]")) && strings.Contains(g, "github.com/sharedcode/sop/") && !strings.Contains(g, "sim.(*Sim).Run(") {
+			var fr []string
+			for _, line := range strings.Split(g, "\n") {
+				if strings.HasPrefix(line, "github.com/sharedcode/sop/") {
+					f := strings.TrimPrefix(line, "github.com/sharedcode/sop/")
+					if j := strings.LastIndex(f, "("); j > 0 {
+						f = f[:j]
+					}
+					fr = append(fr, f)
+					if len(fr) >= n {
+						break
+					}
+				}
+			}
+			return strings.Join(fr, " <- ")
+		}
+	}
+	return ""
+}
+
 func runUnit(c *CheckDef, tier string, seed uint64, i int) *UnitReport {
 	us := unitSeed(seed, c.ID, i)
 	rep := &UnitReport{Index: i}
+	curCheck = c.ID
 	u := &Unit{Index: i, Seed: us, Tier: tier, Rng: rand.New(rand.NewPCG(us, 0x5eed)), Rep: rep, Check: c, Start: time.Now()}
+	curUnit = u
 	done := make(chan struct{})
 	go func() {
 		defer close(done)
@@ -321,40 +411,53 @@ func runMain(id, tier string) int {
 		wg.Add(1)
 		go func(k int) {
 			defer wg.Done()
-			cmd := exec.Command(exe, "worker", id, tier, strconv.FormatUint(seed, 10), strconv.Itoa(k), strconv.Itoa(nw), strconv.FormatInt(deadline, 10))
-			cmd.Stderr = os.Stderr
-			cmd.Env = append(os.Environ(), "GOMAXPROCS=2")
-			out, err := cmd.StdoutPipe()
-			if err != nil {
-				mu.Lock()
-				infra = append(infra, err.Error())
-				mu.Unlock()
-				return
-			}
-			if err := cmd.Start(); err != nil {
-				mu.Lock()
-				infra = append(infra, err.Error())
-				mu.Unlock()
-				return
-			}
-			sc := bufio.NewScanner(out)
-			sc.Buffer(make([]byte, 1<<20), 1<<28)
-			for sc.Scan() {
-				var r UnitReport
-				if err := json.Unmarshal(sc.Bytes(), &r); err != nil {
+			start := k
+			for start < total {
+				cmd := exec.Command(exe, "worker", id, tier, strconv.FormatUint(seed, 10), strconv.Itoa(k), strconv.Itoa(nw), strconv.FormatInt(deadline, 10), strconv.Itoa(start))
+				cmd.Stderr = os.Stderr
+				cmd.Env = append(os.Environ(), "GOMAXPROCS=2")
+				out, err := cmd.StdoutPipe()
+				if err != nil {
 					mu.Lock()
-					infra = append(infra, "bad worker output: "+err.Error())
+					infra = append(infra, err.Error())
 					mu.Unlock()
+					return
+				}
+				if err := cmd.Start(); err != nil {
+					mu.Lock()
+					infra = append(infra, err.Error())
+					mu.Unlock()
+					return
+				}
+				hungAt := -1
+				sc := bufio.NewScanner(out)
+				sc.Buffer(make([]byte, 1<<20), 1<<28)
+				for sc.Scan() {
+					var r UnitReport
+					if err := json.Unmarshal(sc.Bytes(), &r); err != nil {
+						mu.Lock()
+						infra = append(infra, "bad worker output: "+err.Error())
+						mu.Unlock()
+						continue
+					}
+					if r.Hang {
+						hungAt = r.Index
+					}
+					mu.Lock()
+					reports = append(reports, &r)
+					mu.Unlock()
+				}
+				err = cmd.Wait()
+				if hungAt >= 0 {
+					start = hungAt + nw // continue after the unit that hung, in a fresh process
 					continue
 				}
-				mu.Lock()
-				reports = append(reports, &r)
-				mu.Unlock()
-			}
-			if err := cmd.Wait(); err != nil {
-				mu.Lock()
-				infra = append(infra, fmt.Sprintf("worker %d: %v", k, err))
-				mu.Unlock()
+				if err != nil {
+					mu.Lock()
+					infra = append(infra, fmt.Sprintf("worker %d: %v", k, err))
+					mu.Unlock()
+				}
+				return
 			}
 		}(k)
 	}
@@ -485,8 +588,8 @@ func runMain(id, tier string) int {
 			continue
 		}
 		seen[v.Class] = true
-		if c.Minimise != nil && len(seen) <= 10 {
-			v = c.Minimise(v)
+		if c.Minimise != nil && len(seen) <= 10 && !strings.HasPrefix(v.Class, "hang/") {
+			v = minimiseInSubprocess(exe, id, v)
 		}
 		path := filepath.Join(VerifDir, "replays", fmt.Sprintf("%s-%d-%d-%s.json", id, seed, v.Unit, sanitize(v.Class)))
 		rf := map[string]any{"check": id, "seed": seed, "unit": v.Unit, "class": v.Class, "msg": v.Msg, "payload": v.Payload, "hash": v.Hash}
@@ -496,6 +599,67 @@ func runMain(id, tier string) int {
 		fmt.Printf("  class: %s\n  %s\n", v.Class, strings.ReplaceAll(v.Msg, "\n", "\n  "))
 	}
 	return 1
+}
+
+// minimiseInSubprocess shrinks a violation in a separate process (a candidate may hang or
+// crash the process; the best case found so far is checkpointed to a file).
+func minimiseInSubprocess(exe, id string, v Violation) Violation {
+	dir, err := os.MkdirTemp("", "verif-min-")
+	if err != nil {
+		return v
+	}
+	defer os.RemoveAll(dir)
+	in, out := filepath.Join(dir, "in.json"), filepath.Join(dir, "out.json")
+	os.WriteFile(in, mustJSON(v), 0o644)
+	cmd := exec.Command(exe, "minimise", id, in, out)
+	cmd.Stderr = nil
+	done := make(chan error, 1)
+	cmd.Start()
+	go func() { done <- cmd.Wait() }()
+	select {
+	case <-done:
+	case <-time.After(150 * time.Second):
+		cmd.Process.Kill()
+		<-done
+	}
+	if b, err := os.ReadFile(out); err == nil {
+		var m Violation
+		if json.Unmarshal(b, &m) == nil && m.Class == v.Class && len(m.Payload) > 0 {
+			m.Unit = v.Unit
+			return m
+		}
+	}
+	return v
+}
+
+// minimiseCheckpoint is where the running minimiser saves its best case so far.
+var minimiseCheckpoint string
+
+func minimiseMain(args []string) int {
+	if len(args) < 3 {
+		return 2
+	}
+	c := registry[args[0]]
+	if c == nil || c.Minimise == nil {
+		return 2
+	}
+	b, err := os.ReadFile(args[1])
+	if err != nil {
+		return 2
+	}
+	var v Violation
+	if json.Unmarshal(b, &v) != nil {
+		return 2
+	}
+	minimiseCheckpoint = args[2]
+	sim.StuckHandler = func(*sim.Sim, *sim.Task, string) {
+		os.RemoveAll(RunDirBase)
+		os.Exit(5) // a candidate hung: keep the checkpointed best
+	}
+	m := c.Minimise(v)
+	os.WriteFile(args[2], mustJSON(m), 0o644)
+	os.RemoveAll(RunDirBase)
+	return 0
 }
 
 func sanitize(s string) string {
@@ -533,6 +697,16 @@ func replayMain(path string) int {
 	if c == nil || c.Replay == nil {
 		fmt.Fprintln(os.Stderr, "no replay for", rf.Check)
 		return 2
+	}
+	sim.StuckHandler = func(s *sim.Sim, t *sim.Task, stacks string) {
+		cls := "hang/" + strings.TrimPrefix(hangFrame(stacks), "panic/")
+		os.RemoveAll(RunDirBase)
+		if cls == rf.Class {
+			fmt.Printf("VIOLATION property=%s replay=%s\n  class: %s\n  task %s hangs inside sop again (%s)\n", rf.Check, path, cls, t.Name, hangFrames(stacks, 6))
+			os.Exit(1)
+		}
+		fmt.Printf("REPLAY-DIVERGED: expected class %q, the replay hung in %q\n", rf.Class, cls)
+		os.Exit(2)
 	}
 	vs := c.Replay(rf.Payload)
 	os.RemoveAll(RunDirBase)
